@@ -18,7 +18,7 @@ CHECKS = {
  "C16": dict(
     technique="bounded symbolic execution (CrossHair/z3): strict vs non-strict runs of the real parser on catalogue contexts + one token chosen by symbolic index over the source-derived name list; tokenizer error sites on C02 pre-states with a symbolic Unicode continuation; conforming skeletons with symbolic text",
     text="(a) for each tree-construction context (every 3rd of 73 in quick, all in thorough; documents and fragments) and every start/end/attributed/self-closing tag over ~140 source-derived names plus 12 other tokens: the non-strict run's errors all have a code in E that formats with its variables and a position inside the input; the strict run raises ParseError and nothing else, exactly when errors were recorded, with the first error's message. "
-         "(b) every ParseError token the tokenizer emits from each C02 catalogue pre-state on any continuation of <= 2/3 Unicode characters has a code in E whose template variables are supplied. (c) 10 conforming skeletons (incl. foreign content with mixed-case names) x symbolic text record no error in strict mode. (d) concrete lemma: E's templates format; all literal error sites in the AST use known codes and supply the template's variables.",
+         "(b) every ParseError token the tokenizer emits from each C02 catalogue pre-state on any continuation of <= 2/3 Unicode characters has a code in E whose template variables are supplied. (c) 14 conforming skeletons (incl. foreign content with mixed-case names and nested omitted end tags) x symbolic text record no error in strict mode; byte input whose late declaration restarts the parse (also beyond the first 10240-character chunk) records positions inside the input. (d) concrete lemma: E's templates format; all literal error sites in the AST use known codes and supply the template's variables.",
     note="Element names by symbolic index over a finite source-derived list (the parser compares names only with such constants); after the fork the run is concrete. Lemma (d) is not a solver result. " + NOTE_COMMON,
     design="§3 C16"),
  "C03": dict(
@@ -48,13 +48,13 @@ CHECKS = {
  "C08": dict(
     technique="bounded symbolic execution (CrossHair/z3) of the real HTMLSerializer.serialize with symbolic Unicode text / attribute values and symbolic options, output re-tokenised by the independent reference tokenizer R1 in the parser's tokenizer state; z3 regex-language inclusion on the live quoting regexes",
     text="For each of 16 element kinds (normal, RCDATA, RAWTEXT, script, noscript, foreign style/title/script ...) with Characters or SpaceCharacters of <= 2/3 arbitrary Unicode characters, and for start/empty tags with attributes (keys by index over plain / boolean / namespaced / hyphenated, values of <= 1/2 arbitrary characters), with every escaping, quoting, minimisation, solidus and sorting option symbolic: either serializer.errors is non-empty or the output, newline-normalised and re-tokenised by R1 in the state the standard's tree construction selects, yields exactly the given tokens. "
-         "Comments and doctype identifiers producible by parsing (via R1 over a class alphabet). z3: the language of values left unquoted by _quoteAttributeSpec/_quoteAttributeLegacy (translated from the live patterns, unbounded strings) contains no whitespace, '>', quote, '=', '<' or backtick.",
+         "Reference-shaped attribute values (<= 2/4 fragments of &, lt, amp, ;, #, digits ...); the entity replacement of unencodable characters is self-delimiting in text and attribute context; comments and doctype identifiers producible by parsing (via R1 over a class alphabet). z3: the language of values left unquoted by _quoteAttributeSpec/_quoteAttributeLegacy (translated from the live patterns, unbounded strings) contains no whitespace, '>', quote, '=', '<' or backtick.",
     note="R1/R10 trusted; 8 listed known findings (raw text by bare name, plaintext, escape_rcdata in raw text, raw CR, boolean minimisation, namespace prefixes, unquoted value + solidus, quote in public id) are excluded by signature and their witnesses replayed; streams of more than one element and encoded output are outside the claim. " + NOTE_COMMON,
     design="§3 C08"),
  "C09": dict(
     technique="direct z3 queries generated from the live sanitizer regexes (regular-language emptiness on unbounded strings with alphabet compression; character-class coverage over every code point) + bounded symbolic execution (CrossHair/z3) of sanitize_token / allowed_token / sanitize_css with names, keys and text by symbolic index",
     text="z3: (1) no style string (unbounded) that survives the url()-removal regex and both gauntlet regexes (read from the AST of sanitize_css, compressed to 28 character classes) contains 'url' WS* '(' in any case; (2) the class stripped from URI values covers every C0 control and space and no scheme character, for every code point. "
-         "CrossHair: element gate over every name of any allow-list entry + 16 dangerous names x 6 namespaces x tag types; attribute gate over all ordered selections of <= 3 keys from a 30-key alphabet with default and custom allow-lists; URI gate for every URI-valued attribute with values over a 16-character URL class alphabet (<= 3/4 chars) vs the browser scheme rule (R6), and 11 concrete dangerous schemes with a hole at every position under the default lists incl. data: content types; CSS gate over an 18-character CSS alphabet (<= 3/4 chars) x 4 heads.",
+         "CrossHair: element gate over every name of any allow-list entry + 16 dangerous names x 6 namespaces x tag types; attribute gate over all ordered selections of <= 3 keys from a 30-key alphabet with default and custom allow-lists; URI gate for every URI-valued attribute with values over a 16-character URL class alphabet (<= 3/4 chars) vs the browser scheme rule (R6), 11 concrete dangerous schemes with a hole at every position under the default lists incl. data: content types and under a custom protocol list {http}; 1..2/3 URI attributes with forbidden URLs on one element; CSS gate over an 18-character CSS alphabet (<= 3/4 chars) x 4 heads.",
     note="R6 browser scheme / data-URL MIME rules are my transcription of WHATWG URL / fetch; urlsplit's lru_cache unwrapped; all-Unicode closure only through the two z3 queries. " + NOTE_COMMON,
     design="§3 C09"),
  "C15": dict(
@@ -72,14 +72,14 @@ CHECKS = {
  "C12": dict(
     technique="bounded symbolic execution (CrossHair/z3): reuse histories (first use, kind of abort, second use) chosen by symbolic index, second use on the shared object compared with a brand-new object; real handler caches live",
     text="For every sixth (quick) / every (thorough) of 75 first-use contexts (documents and fragments) x 39 state-leaving tokens (incl. 260 distinct unknown start / end tags that overflow the per-phase handler caches) x {completed, strict-mode ParseError abort, input source failing at the 2nd / 3rd read} x 28 state-sensitive second documents / fragments x {etree, dom}: "
-         "tree and error list of the second parse on the reused HTMLParser equal those of a new parser. HTMLSerializer: 7 x 7 documents, first serialize() abandoned after 0..12 chunks or aborted by a strict SerializeError, then render() equals a new serializer's (output and errors).",
+         "tree and error list of the second parse on the reused HTMLParser equal those of a new parser. The module-level parse()/parseFragment() called re-entrantly from an input source's read() (28 x 28 documents). HTMLSerializer: 7 x 7 documents, first serialize() abandoned after 0..12 chunks or aborted by a strict SerializeError, then render() equals a new serializer's (output and errors).",
     note="NOT APPLICABLE dimension: thread interleavings (no scheduler model in CrossHair; nothing claimed about concurrency). Abort points are the first recorded error and source failures after 1 / 2 chunks; histories are length 2. " + NOTE_COMMON,
     design="§3 C12"),
  "C10": dict(
     technique="bounded symbolic execution (CrossHair/z3): the real parse -> sanitize -> serialize -> re-parse pipeline on inputs composed by symbolic index from mutation-XSS shaped pieces with symbolic options, re-parsed tree checked against the sanitizer's allow-lists; composition with C09 and C08",
-    text="For every input composed of a fragment container, two context openers (32: foreign content, integration points, raw-text / RCDATA elements, noscript, tables, select, template, plaintext ...; quick: 32 x 3, thorough: 32 x 8 in 2 containers) and one of 48 payloads (doubly-encoded references in unquoted values, several forbidden URLs on one element, attribute-value breakouts of raw-text elements, comments, CDATA, foreign-content breakouts, obfuscated javascript: URLs, backticks, NUL ...), with optional-tag omission, quoting mode, scripting of both parses and the re-parse mode (same container / div / document) symbolic: "
+    text="For every input composed of a fragment container, two context openers (32: foreign content, integration points, raw-text / RCDATA elements, noscript, tables, select, template, plaintext ...; quick: 32 x 3, thorough: 32 x 8 in 2 containers) and one of 53 payloads (doubly-encoded references in unquoted values, several forbidden URLs on one element, attribute-value breakouts of raw-text elements, comments, CDATA, foreign-content breakouts, obfuscated javascript: URLs, backticks, NUL ...), with optional-tag omission, quoting mode, scripting of both parses and the re-parse mode (same container / div / document) symbolic: "
          "every element, attribute, URL scheme (browser rule R6), data: content type and style value of the RE-PARSED tree is on the sanitizer's allow-lists and no comment reappears. Plus the concrete lemma that no allow-listed element is written raw but parsed as data or vice versa.",
-    note="Inputs are instances of the piece grammar only; one listed known finding (namespace confusion after an escaped integration point) is the single problem class ignored. " + NOTE_COMMON,
+    note="Inputs are instances of the piece grammar only; two listed known findings: namespace confusion after an escaped integration point (the single problem class ignored) and a genuine mutation-XSS class - an HTML element placed directly inside foreign content by the first parse breaks out on re-parse (inputs whose first parse has that shape are skipped, witness replayed). " + NOTE_COMMON,
     design="§3 C10"),
  "C07": dict(
     technique="bounded symbolic execution (CrossHair/z3): conforming documents composed by symbolic index from a grammar of the HTML content model, serializer options symbolic, parse -> walk -> serialize -> parse compared as abstract trees; composition with C08 / C11 / C04 / C13",
@@ -89,14 +89,14 @@ CHECKS = {
     design="§3 C07"),
  "C01": dict(
     technique="bounded symbolic execution (CrossHair/z3) of tree-construction KERNELS against few-line references written from the standard: scope tests, implied end tags, fragment insertion-mode reset, integration points, quirks-mode facts, Noah's-ark / reconstruction of active formatting elements; inputs by symbolic index",
-    text="KERNEL OBLIGATIONS ONLY - whole-algorithm equivalence is not claimed. Decided: elementInScope for 5 scope kinds x 5/10 targets on every stack of depth <= 2/3 over a 17/19-element class alphabet (incl. same local names in foreign namespaces); generateImpliedEndTags on stacks of depth <= 2/3 x every exclusion; resetInsertionMode for 25 fragment contexts; isHTMLIntegrationPoint / isMathMLTextIntegrationPoint for 16 elements x 9 encoding values; the quirks-mode decision (and the p/table nesting it controls) for 29 doctypes x keyword case; the element chain reconstructed after '<p>' + <= 4/5 formatting start tags + 'x</p>y' against the Noah's-ark rule. "
+    text="KERNEL OBLIGATIONS ONLY - whole-algorithm equivalence is not claimed. Decided: the adoption agency's outer-loop bound (k nested blocks: 'y' leaves the formatting element iff k <= 7), the in-table-text whitespace rule on FULLY SYMBOLIC text (any 1-2 Unicode characters through the real tokenizer and parser), elementInScope for 5 scope kinds x 5/10 targets on every stack of depth <= 2/3 over a 17/19-element class alphabet (incl. same local names in foreign namespaces); generateImpliedEndTags on stacks of depth <= 2/3 x every exclusion; resetInsertionMode for 25 fragment contexts; isHTMLIntegrationPoint / isMathMLTextIntegrationPoint for 16 elements x 9 encoding values; the quirks-mode decision (and the p/table nesting it controls) for 29 doctypes x keyword case; the element chain reconstructed after '<p>' + <= 4/5 formatting start tags + 'x</p>y' against the Noah's-ark rule. "
          "The rest of the algorithm is exercised (not compared with the standard) by C03 totality / skeleton, C04 builder agreement, C16 strictness, C07 round trip, C12 reuse.",
     note="R4 references are my transcriptions of the 2020 standard; the quirks reference is 29 facts, not the full identifier table; one listed known finding covers the differences from revisions after html5lib's model (template, rb/rtc, td/th/head fragment reset, name-only implied end tags). NOT APPLICABLE in full: equality with the WHATWG algorithm on all inputs (no independent model offline). " + NOTE_COMMON,
     design="§3 C01"),
  "C02": dict(
     technique="bounded symbolic execution (CrossHair/z3) of the real tokenizer state methods from catalogue pre-states on a symbolic continuation of arbitrary Unicode characters, differentially against an independent transcription of the WHATWG tokenizer (R1)",
     text="For every state method of the live HTMLTokenizer class (catalogue rebuilt from /repo at check time: 119 pre-states over 7 configurations = 5 start states x last start tag x CDATA allowed/not) the real tokenizer is run from that pre-state on EVERY string of <= 2 (quick) / 3 (thorough) Unicode characters followed by end of input, "
-         "and the emitted tokens (parse errors dropped, character tokens merged) are compared with R1. Each obligation is closed over all code points by the solver (NUL, non-BMP, every delimiter class), which covers every state x next-character decision incl. EOF in every state, look-ahead (DOCTYPE/PUBLIC/SYSTEM/--/[CDATA[) and the character-reference entry points.",
+         "and the emitted tokens (parse errors dropped, character tokens merged) are compared with R1. Character references: the unbounded-integer and leading-zero obligations of C14 are re-run here. Each obligation is closed over all code points by the solver (NUL, non-BMP, every delimiter class), which covers every state x next-character decision incl. EOF in every state, look-ahead (DOCTYPE/PUBLIC/SYSTEM/--/[CDATA[) and the character-reference entry points.",
     note="R1/R10 references trusted (validated on 5.2 M concrete inputs); pre-states are those the catalogue prefixes build (pending token contents concrete), continuation bounded by K; CDATA NUL relocation is a listed known finding; attributeMap replaced by an equivalent linear-scan map. " + NOTE_COMMON,
     design="§3 C02"),
  "C05": dict(
